@@ -53,9 +53,17 @@ impl MonTarget {
         self.counter.set(n + 1);
         let faulted = self.mode != FaultMode::None && self.faults.contains(&n);
         if self.log_ops {
-            self.ops
-                .borrow_mut()
-                .push(json!([kind, path.to_string(), extra, faulted]));
+            let prefix = match path.prefix {
+                PathPrefix::Event => ".",
+                PathPrefix::Metadata => "%",
+            };
+            self.ops.borrow_mut().push(json!([
+                kind,
+                path.to_string(),
+                extra,
+                faulted,
+                {"prefix": prefix, "segs": crate::ops::segments_json(&path.path)}
+            ]));
         }
         faulted
     }
